@@ -100,6 +100,73 @@ def side_views(inst: Any, lb: int) -> None:
             lambda: f"InstanceSpace.min_bins {sp.min_bins} != {lb}")
 
 
+def bounds_in_result_record(inst: Any, rows: list, k: int, lb: int, W: int,
+                            H: int, items: list) -> None:
+    """The bin-count bounds stored with a result record of the known feasible
+    packing: the overall bound, the geometric one and the Dell'Amico et al.
+    one - none may exceed the packing's bin count."""
+    from moptipy.evaluation.end_results import EndResult
+    from moptipyapps.binpacking2d import packing_result as pres
+    y = gen_bp.build_packing(inst, rows, k)
+    er = EndResult("algo", inst.name, "binCount", None, 1, k, 1, 0, 1, 0,
+                   None, None, None)
+    rec = sut("from_packing_and_end_result",
+              pres.from_packing_and_end_result, er, y)
+    bb = dict(rec.bin_bounds)
+    require(bb.get("bins.lowerBound") == lb, lambda: f"result record: "
+            f"bins.lowerBound={bb.get('bins.lowerBound')} but the instance "
+            f"says {lb}")
+    ab = area_bound(W, H, items)
+    require(bb.get("bins.lowerBound.geometric") == ab, lambda: "result "
+            f"record: geometric bound {bb.get('bins.lowerBound.geometric')}"
+            f", area bound is {ab}")
+    damv = bb.get("bins.lowerBound.damv")
+    require(damv is not None and 1 <= damv <= min(lb, k), lambda: "result "
+            f"record: Dell'Amico bound {damv} for a packing with {k} bins "
+            f"(overall bound {lb}); bin {W}x{H}, items {items}")
+
+
+@st.composite
+def square_cases(draw: Any) -> dict:
+    """Bins filled with one row of medium squares (side between half the bin
+    height and half the bin width) and small squares above / beside them -
+    the item classes S2/S3/S4 of the Dell'Amico et al. bound all occur, with
+    a feasible k-bin layout known by construction."""
+    H = draw(st.integers(4, 24))
+    W = draw(st.integers(H, 2 * H + 6))
+    s_hi = max(1, min(W // 2, H))
+    s_lo = min(s_hi, max(1, H // 2 + 1 if draw(st.booleans()) else H // 3))
+    s = draw(st.integers(s_lo, s_hi))
+    a = max(1, W // s)
+    t = draw(st.integers(1, max(1, H - s))) if H > s else 0
+    k = draw(st.integers(1, 4))
+    rows: list[list[int]] = []
+    items = [[s, s, 0]]
+    if t:
+        items.append([t, t, 0])
+    for b in range(1, k + 1):
+        n_med = a if draw(st.integers(0, 3)) else draw(st.integers(1, a))
+        for i in range(n_med):
+            rows.append([1, b, i * s, 0, (i + 1) * s, s])
+            items[0][2] += 1
+        if t:
+            per_row = W // t
+            n_rows = (H - s) // t
+            cnt = draw(st.integers(0, per_row * n_rows))
+            for j in range(cnt):
+                x0, y0 = (j % per_row) * t, s + (j // per_row) * t
+                rows.append([2, b, x0, y0, x0 + t, y0 + t])
+                items[1][2] += 1
+    items = [it for it in items if it[2] > 0]
+    if len(items) == 1:  # only one of the two types occurs: it has id 1
+        rows = [[1, *r[1:]] for r in rows]
+    if draw(st.booleans()):  # portrait orientation of everything
+        W, H = H, W
+        rows = [[i, b, y0, x0, y1, x1] for i, b, x0, y0, x1, y1 in rows]
+    return {"W": W, "H": H, "k": k, "items": items, "rows": rows,
+            "shape": "squares", "perfect": False}
+
+
 def check_guillotine(ctx: Ctx, case: dict) -> None:
     from hypothesis import target
     W, H, items, k = case["W"], case["H"], case["items"], case["k"]
@@ -119,6 +186,7 @@ def check_guillotine(ctx: Ctx, case: dict) -> None:
             f"feasible packing: bin {W}x{H}, items {items}, "
             f"packing {case['rows']}")
     side_views(inst, lb)
+    bounds_in_result_record(inst, case["rows"], k, lb, W, H, items)
     for what, W2, H2, items2 in variants(case):
         _i, lb2 = bounds_of(ctx, W2, H2, items2, what)
         require(lb2 == lb, lambda: f"bound changes from {lb} to {lb2} under "
@@ -221,7 +289,7 @@ def check_huge_area(ctx: Ctx, case: dict) -> None:
 
 
 SUBS = {"guillotine": check_guillotine, "decoded": check_decoded,
-        "huge_area": check_huge_area}
+        "huge_area": check_huge_area, "squares": check_guillotine}
 
 
 def decoded_cases(**kw: Any) -> Any:
@@ -238,6 +306,8 @@ def decoded_cases(**kw: Any) -> Any:
 def run(ctx: Ctx) -> None:
     ctx.given("huge_area", huge_area_cases(), check_huge_area, quick=40,
               thorough=16 * 150, shrink=False)
+    ctx.given("squares", square_cases(), check_guillotine, quick=1500,
+              thorough=16 * 6000)
     ctx.given("guillotine",
               gen_bp.guillotine_shaped(max_bins=ctx.pick(5, 7),
                                        max_dim=ctx.pick(40, 60),
